@@ -62,7 +62,20 @@ def has_surrogate(s: str) -> bool:
 
 def all_slots(desc):
     """[(type name, slot name)] of a descriptor in slot order, reserved fields included."""
-    return [(str(t), str(n)) for t, n in desc.get_field_tuples()] + list(RESERVED)
+    return effective_fields(desc) + list(RESERVED)
+
+
+def effective_fields(desc):
+    """[(type, name)] of the record's own slots: a field name declared more than once (RecordDescriptor.extend() with an
+    existing name, a field rewriter re-typing a field) keeps the position of its first declaration and the type of its LAST
+    one - that is the type the record's slot really has."""
+    last, order = {}, []
+    for t, n in desc.get_field_tuples():
+        t, n = str(t), str(n)
+        if n not in last:
+            order.append(n)
+        last[n] = t
+    return [(last[n], n) for n in order]
 
 
 def slot_problem(ftype, v):
@@ -107,7 +120,7 @@ def compare_slots(rec):
     if is_grouped(rec):
         # "If two Records have the same fieldname, the first one will prevail" (GroupedRecord's documented rule), which
         # covers the reserved fields every member carries
-        return [(str(t), str(n)) for t, n in rec._desc.get_field_tuples()] + list(RESERVED)
+        return effective_fields(rec._desc) + list(RESERVED)
     return all_slots(rec._desc)
 
 
@@ -356,7 +369,7 @@ def make_record(rng, desc, bad=False, focus=None, thorough=False):
     bad=True: exactly one field that has an unmappable class gets such a value (when the descriptor has none, _source gets
     text with a surrogate escape).  focus = (field name, value class)."""
     kwargs = {}
-    fields = [(str(t), str(n)) for t, n in desc.get_field_tuples()]
+    fields = effective_fields(desc)
     bad_field = None
     if bad:
         cands = [(t, n) for t, n in fields if t in BAD_CLASSES and not (focus and focus[0] == n)]
